@@ -93,7 +93,51 @@ fn owner(path: &str) -> String {
     }
 }
 
+/// First step after which the model's evaluation is not current: an extra `evaluate()` changes the observation.
+/// (That is C07's / C31's finding — a reader of a spill evaluated later in the pass stays stale until the next
+/// evaluation — and whatever operation happens to trigger the next evaluation then "changes" unrelated cells.)
+pub fn stale_step(seed: &'static str, word: &[Op]) -> Option<usize> {
+    let o = ObsOpts::default();
+    let mut um = seeds::load(seed);
+    for (i, op) in word.iter().enumerate() {
+        if !matches!(crate::env::guarded(|| op.apply(&mut um)), Ok(Ok(()))) {
+            return None;
+        }
+        let a = obs::observe(&um, &o);
+        um.evaluate();
+        if obs::observe(&um, &o) != a {
+            return Some(i);
+        }
+    }
+    None
+}
+
+/// Re-labels the disagreements of a history whose evaluation went stale at some step.
+pub fn relabel_stale(seed: &'static str, word: &[Op], ds: &mut Vec<Disagreement>) {
+    if ds.is_empty() || ds.iter().all(|d| d.sig.starts_with("panic")) {
+        return;
+    }
+    if let Some(i) = stale_step(seed, word) {
+        let first = ds[0].clone();
+        ds.clear();
+        ds.push(Disagreement {
+            sig: format!("stale-evaluation after={}", word[i].kind()),
+            case: first.case,
+            detail: format!(
+                "after operation {} ({:?}) an extra evaluate() changes the workbook (evaluation was not current), so later steps are not judged; first symptom: {}",
+                i, word[i], first.detail.lines().take(3).collect::<Vec<_>>().join(" | ")
+            ),
+        });
+    }
+}
+
 pub fn judge(seed: &'static str, word: &[Op]) -> Option<WordOut> {
+    let mut out = judge_inner(seed, word)?;
+    relabel_stale(seed, word, &mut out.ds);
+    Some(out)
+}
+
+fn judge_inner(seed: &'static str, word: &[Op]) -> Option<WordOut> {
     let o = ObsOpts::default();
     let mut um = seeds::load(seed);
     let mut states: Vec<Obs> = vec![obs::observe(&um, &o)];
